@@ -85,6 +85,19 @@ impl WMarket {
     pub fn liquidity_pool(&self) -> (r: Result<&LPool, E>)
         ensures r.is_ok() == self.pool.is_some(), r.is_ok() ==> *r.unwrap() == self.pool.unwrap()
     { match &self.pool { Some(x) => Ok(x), None => Err(E::Other) } }
+
+//@unit C06.BaseMarketExt.pool_value_without_pnl_for_one_side
+//@ file crates/model/src/market/base.rs
+//@ within pub trait BaseMarketExt<const DECIMALS: u8>: BaseMarket<DECIMALS>
+//@ fn pool_value_without_pnl_for_one_side
+//@ sig fn pool_value_without_pnl_for_one_side( &self, prices: &Prices<Self::Num>, is_long: bool, maximize: bool, ) -> crate::Result<Self::Num>
+    pub fn pool_value_without_pnl_for_one_side(&self, prices: &Prices, is_long: bool, maximize: bool) -> (r: Result<N, E>)
+        ensures
+            // the liquidity pool amount of THAT token at THAT token's price, the max price when maximising and the min price otherwise
+            r.is_ok() ==> self.pool.is_some() && r.unwrap()@ == (if is_long { self.pool.unwrap().long@ } else { self.pool.unwrap().short@ })
+                * (if is_long { if maximize { prices.long_token_price.max@ } else { prices.long_token_price.min@ } }
+                   else { if maximize { prices.short_token_price.max@ } else { prices.short_token_price.min@ } }),
+//@body
 }
 
 pub struct Withdrawal { pub market: WMarket, pub params: WithdrawParams }
